@@ -353,6 +353,54 @@ func (c *Ctx) Oblige(st *State, fr *Frame, ins ssa.Instruction, kind, sub string
 	st.Assume(goal)
 }
 
+// emitReach adds a vacuity guard after the contract of a callee was assumed: the state must stay
+// satisfiable on at least one of the (first few) paths that reach the call. A contradictory
+// assumed postcondition would otherwise discharge everything after it.
+const reachSamples = 6
+
+func (c *Ctx) reachKey(fr *Frame, ins ssa.Instruction) string {
+	si := c.sitesOf(ins.Parent())[ins]
+	k := fmt.Sprintf("%p/%s#%d", fr, si.class, si.ord)
+	if fr != nil && fr.depth > 0 {
+		k = fr.callee + "/" + si.class + fmt.Sprint(si.ord)
+	}
+	return k
+}
+
+// reachPreQuery: the state in which the call is made (empty when this call is not sampled).
+func (c *Ctx) reachPreQuery(st *State, fr *Frame, ins ssa.Instruction) string {
+	run := c.cur
+	if run == nil || ins == nil || c.NoReach {
+		return ""
+	}
+	if run.reachSeen[c.reachKey(fr, ins)] >= reachSamples {
+		return ""
+	}
+	return c.buildQueryOpt(st, True, true)
+}
+
+func (c *Ctx) emitReach(st *State, fr *Frame, ins ssa.Instruction, callee string, preQuery string) {
+	run := c.cur
+	if run == nil || ins == nil || c.NoReach || preQuery == "" {
+		return
+	}
+	if run.reachSeen == nil {
+		run.reachSeen = map[string]int{}
+	}
+	k := c.reachKey(fr, ins)
+	if run.reachSeen[k] >= reachSamples {
+		return
+	}
+	run.reachSeen[k]++
+	n := len(c.Obls)
+	c.emit(st, fr, ins, "reach", "after "+callee, True, "the state after assuming the contract of "+callee+" is satisfiable", true)
+	if len(c.Obls) > n {
+		c.Obls[len(c.Obls)-1].Reach = true
+		c.Obls[len(c.Obls)-1].PreQuery = preQuery
+		run.oblCount--
+	}
+}
+
 func (c *Ctx) emit(st *State, fr *Frame, ins ssa.Instruction, kind, sub string, goal Term, human string, cover bool) {
 	run := c.cur
 	fnKey := run.key
